@@ -56,8 +56,8 @@ def cases(tier, seed):
         out.append(
             {
                 "id": f"{fact}-{i}", "fact": fact, "n": n, "d": d, "k": k, "k2": rng.randint(1, k),
-                "prior_kind": rng.choice(["well", "well", "ill", "rankdef", "zero", "nontri"]),
-                "noise_kind": "zero" if forced_singular else rng.choice(["well", "well", "zero", "rankdef", "tiny"]),
+                "prior_kind": rng.choice(["well", "well", "ill", "rankdef", "zero", "nontri", "exact_rows", "exact_rows"]),
+                "noise_kind": "zero" if forced_singular else rng.choice(["well", "well", "zero", "rankdef", "tiny", "exact_rows"]),
                 "scaling": rng.choice(["unit", "powers", "wild"]),
                 "dup_rows": forced_singular or rng.random() < 0.1,
                 "seedm": rng.randrange(10**9),
@@ -87,6 +87,19 @@ def _factor(r, m, kind):
         Q1, _ = np.linalg.qr(r.normal(size=(m, m)))
         s = np.logspace(0, -r.uniform(6, 12), m) if m > 1 else np.ones(1)
         return np.tril(Q1 * s[None, :]) + 0.0  # keep lower triangular; still ill-conditioned
+    if kind == "exact_rows":
+        # some coordinates are known exactly (zero rows/columns), the others are uncertain: the situation of
+        # exact leading Taylor coefficients next to diffuse higher ones
+        L = np.tril(r.normal(size=(m, m))) * 0.3
+        L[np.arange(m), np.arange(m)] = r.uniform(0.5, 2.0, size=m)
+        if m > 1:
+            mode = r.integers(0, 3)
+            k0 = int(r.integers(1, m))
+            idx = np.arange(k0) if mode == 0 else (np.arange(m - k0, m) if mode == 1 else r.choice(m, size=k0, replace=False))
+            L[idx, :] = 0.0
+            if r.random() < 0.5:
+                L[:, idx] = 0.0  # else: the factor keeps its columns (zero rows followed by correlated rows)
+        return L
     if kind == "rankdef":
         L = np.tril(r.normal(size=(m, m)))
         if m > 1:
